@@ -24,7 +24,9 @@ EXPLANATION = (
     "subplot, line and x roles, by name and by letter, with and without an x array, every recorded line must have as y exactly "
     "the array's entries for that subplot item and line item along the chosen dimension and as x that dimension's items or the "
     "matching entries of the x array, in a distinct grid cell per subplot item. What plotly / matplotlib render is not decided. "
-    "Also: exclusions added to an existing Sankey plotter after it has plotted; hand-built systems whose process ids are not in listing order.")
+    "Also: exclusions added to an existing Sankey plotter after it has plotted; hand-built systems whose process ids are not in listing order."
+    ' display_names showing two processes under one label, a caller-supplied plotly figure laid out as one row / one column, and time items that are text reading like numbers are part of the cases.'
+)
 TECHNIQUE = "static analysis: abstract interpretation of the plotting code with recording models of plotly/matplotlib; provenance of every plotted number on the labelled-tensor domain"
 
 
